@@ -263,10 +263,25 @@ def run_compare(case, ctx):
     va = S.Vector(list(a))
     ops = CMP + (LOGIC if ka == "bool" and kb == "bool" else [])
     for name, op in ops:
-        for form in ("vector", "list", "tuple", "scalar", "self"):
+        for form in ("vector", "list", "tuple", "scalar", "self", "scalar_none"):
             if form == "scalar":
                 ys = [case["scalar"]] * len(a)
                 rhs = case["scalar"]
+            elif form == "scalar_none":
+                # the scalar None as right operand: Python compares every element with it (x == None is False, x != None is
+                # True; ordering is a TypeError and stays outside); a None *element* still gives False at its position
+                if name not in ("eq", "ne"):
+                    continue
+                rhs = None
+                ctx.ev()
+                want = [False if x is None else bool(op(x, None)) for x in a]
+                try:
+                    got = list(op(va, None))
+                except Exception as e:  # noqa: BLE001
+                    return ctx.fail(f"compare-scalar-none/raised/{type(e).__name__}", f"{a} {name} None: {e}")
+                if got != want:
+                    return ctx.fail(f"compare-scalar-none/mismatch/{name}", f"{a} {name} None: got {got} want {want}")
+                continue
             elif form == "self":
                 ys, rhs = a, va
             else:
@@ -334,7 +349,7 @@ def table_case(draw, tier="quick"):
                           st.tuples(st.just("mask"), st.lists(st.booleans(), min_size=n, max_size=n), st.sampled_from(["vector", "list"]))))
     stored = [nm for nm, _ in cols if isinstance(nm, str)]
     sel = draw(st.lists(st.sampled_from(stored), min_size=1, max_size=3)) if stored else []
-    missing = draw(st.sampled_from(["missing", "zz", "a__9", "col9_", "B", "b_"]))
+    missing = draw(st.sampled_from(["missing", "zz", "a__9", "col9_", "B", "b_", "col0_", "col1_", "COL0_", "col2_", "Col1_"]))
     pos = draw(st.integers(0, len(sel)))
     return {"cols": cols, "rows": rows, "sel": sel, "missing": missing, "missing_pos": pos}
 
@@ -385,12 +400,21 @@ def run_table(case, ctx):
             return ctx.fail("table-row-index/wrong-row", f"t[{i}] on {n} rows: {got_row}, columns give {want_row}")
     # missing column must be an error (single name and inside a tuple)
     miss = case["missing"]
-    exists = False
-    try:
-        t[miss]
-        exists = True
-    except Exception:  # noqa: BLE001
-        pass
+    # does the name denote a column?  Decided without asking the lookup under test: it is a stored name, or (as the table
+    # advertises them through dir()) an accessor of some column, compared case-insensitively / after sanitisation
+    from checks import c17 as _c17
+    adv = set(dir(t)) - _c17.base_dir()
+    exists = miss in names or miss.lower() in adv or (_c17.ref_sanitise(miss) in adv)
+    if not exists:
+        ctx.ev()
+        try:
+            r1 = t[miss]
+        except Exception:  # noqa: BLE001
+            r1 = None
+        else:
+            shape = "system-name" if (miss.lower().startswith("col") and miss.endswith("_")) else "other"
+            return ctx.fail(f"table-select/missing-column-accepted/single/{shape}",
+                            f"t[{miss!r}] on columns {names} (advertised {sorted(adv)}) returned {type(r1).__name__}")
     if not exists and case["sel"]:
         ctx.ev()
         sel = list(case["sel"])
